@@ -161,6 +161,9 @@ def translate():
     except ValueError as ex:
         fails.append("h2.rs: handle_header_state unreadable: %r" % (ex,))
 
+    # shutting_down: a stream is marked as ended only when its request was parsed to the end
+    if not re.search(r"if stream\.front\.consumed\s*&& stream\.front\.storage\.is_empty\(\)\s*&& stream\.front\.is_completed\(\)\s*&& stream\.front\.is_terminated\(\)\s*\{\s*stream\.front_received_end_of_stream = true;", ms):
+        fails.append("mod.rs: shutting_down marks a stream as having received END_STREAM without requiring the request to be terminated (an upload in flight would be cut)")
     lines = ["(* GENERATED by props/c15.py:translate from /repo/lib/src/protocol/mux — do not edit. *)",
              "From Coq Require Import NArith List.", "Import ListNotations.", "Open Scope N_scope.", ""]
     for k in PARSER_CONSTS + H2_CONSTS + ["FLOOD_WINDOW_MS", "MAX_LOOP_ITERATIONS"]:
